@@ -656,6 +656,8 @@ class CodeGen:
             case ast.BoolValue():
                 result = asm.IntLiteral(int(expr.data))
             case ast.StringValue():
+                if len(expr.data) > self.max_signed:
+                    raise CodeGenError(f'String is too long (length: {len(expr.data)})', expr.span)
                 result = self.label_for_string(expr.data)
             case ast.BoolToByte() | ast.ByteToInt():
                 return (yield from self.eval_expr(r_out, expr.expr, keep))
